@@ -2,6 +2,7 @@ package props
 
 import (
 	"context"
+	"errors"
 	"fmt"
 	"time"
 
@@ -48,8 +49,10 @@ func runC18(s *core.Sim, tier string) RunInfo {
 	var desc []string
 	var idx []int
 	heads := make([]uint64, np+1)
+	faults := make([]string, np+1)
 	servers := make([]*XServer, np+1)
 	var capableFaultArmed bool // the capable peer times out once from now on (final request only)
+	var capableResetArmed bool // ... or resets one stream
 	for i := 1; i <= np; i++ {
 		idx = append(idx, i)
 		head := top
@@ -60,7 +63,7 @@ func runC18(s *core.Sim, tier string) RunInfo {
 			if head < 2 {
 				head = 2
 			}
-			fault = core.Pick(s.Tape, "benign", []string{"none", "none", "timeout-once", "slow"})
+			fault = core.Pick(s.Tape, "benign", []string{"none", "none", "timeout-once", "slow", "reset-once"})
 		}
 		xs, err := w.AddServer(i, 1, head)
 		if err != nil {
@@ -69,9 +72,24 @@ func runC18(s *core.Sim, tier string) RunInfo {
 		}
 		desc = append(desc, fmt.Sprintf("peer%d has 1..%d fault=%s", i, head, fault))
 		heads[i], servers[i] = head, xs
+		faults[i] = fault
 		n := 0
 		f := fault
 		isCapable := i == capable
+		resets := 0
+		xs.Rec.FailRange = func(from, to uint64) error {
+			// a hiccup of the server's own store: the request is given up (the stream is reset),
+			// the peer and the connection are fine
+			if (f == "reset-once" && resets == 0) || (isCapable && capableResetArmed) {
+				resets++
+				if isCapable {
+					capableResetArmed = false
+				}
+				s.Fault("peer-resets-a-stream-once")
+				return errors.New("server store: transient I/O error")
+			}
+			return nil
+		}
 		xs.Rec.Delay = func(call string) time.Duration {
 			n++
 			base := time.Duration(5+rng.Draw("svc-ms", 40)) * time.Millisecond
@@ -92,7 +110,29 @@ func runC18(s *core.Sim, tier string) RunInfo {
 			return base
 		}
 	}
-	if err := w.StartClient(w.PeerIDs(idx...), idx, p2p.WithMaxHeadersPerRangeRequest(chunk), p2p.WithRequestTimeout[p2p.ClientParameters](timeout)); err != nil {
+	// the trusted peers are all of them, or only some (ranges are fetched from whoever is connected;
+	// only trusted peers are dialled again by the Exchange itself when a connection is gone)
+	trusted := idx
+	capableTrusted := true
+	if np > 1 && s.Tape.Coin("trusted-subset", 1, 3) {
+		trusted = nil
+		for _, i := range idx {
+			if s.Tape.Coin("trust-peer", 1, 2) {
+				trusted = append(trusted, i)
+			}
+		}
+		if len(trusted) == 0 {
+			trusted = []int{idx[s.Tape.Draw("trust-one", len(idx))]}
+		}
+		capableTrusted = false
+		for _, i := range trusted {
+			if i == capable {
+				capableTrusted = true
+			}
+		}
+		desc = append(desc, fmt.Sprintf("trusted peers: %v", trusted))
+	}
+	if err := w.StartClient(w.PeerIDs(trusted...), idx, p2p.WithMaxHeadersPerRangeRequest(chunk), p2p.WithRequestTimeout[p2p.ClientParameters](timeout)); err != nil {
 		s.Aborted = "client start: " + err.Error()
 		return RunInfo{}
 	}
@@ -123,9 +163,14 @@ func runC18(s *core.Sim, tier string) RunInfo {
 	capableDrops := false
 	alt := 0 // the peer that stays healthy and connected when the one holding everything hiccups
 	for i := 1; i <= np; i++ {
-		if i != capable && heads[i] >= to-1 && s.Tape.Coin("capable-hiccups", 1, 3) {
+		// (the other holder of the range is one without a fault of its own: after a failed request a
+		// session does not go back to that peer, so somebody has to stay fault-free)
+		if i != capable && heads[i] >= to-1 && faults[i] == "none" && s.Tape.Coin("capable-hiccups", 1, 3) {
 			alt = i
-			if s.Tape.Coin("hiccup-is-disconnect", 1, 2) {
+			if s.Tape.Coin("hiccup-is-reset", 1, 3) {
+				capableResetArmed = true
+				desc = append(desc, fmt.Sprintf("peer%d (holds everything) resets one stream; peer%d holds the range too", capable, i))
+			} else if s.Tape.Coin("hiccup-is-disconnect", 1, 2) {
 				capableDrops = true
 				desc = append(desc, fmt.Sprintf("peer%d (holds everything) loses its connection once; peer%d holds the range too", capable, i))
 			} else {
@@ -220,6 +265,36 @@ func runC18(s *core.Sim, tier string) RunInfo {
 			s.Violate("wrong-range", map[string]string{"kind": "content"}, "result[%d]=%v, want height %d [%v chunk=%d]", i, h, fromH+1+uint64(i), desc, chunk)
 			return info
 		}
+	}
+	capableFaultArmed, capableResetArmed = false, false // (a hiccup that did not happen stays away from now on)
+	// afterwards the same Exchange is asked for a range that only the peer holding everything has:
+	// whatever happened to that peer's requests before (a timeout, a lost connection that came
+	// back), it is connected and honest, so the range arrives
+	if warm > 0 && s.Tape.Coin("later-request", 1, 2) {
+		wf := warmFrom + uint64(s.Tape.Draw("later-from", 4))
+		wt := wf + 2 + uint64(s.Tape.Draw("later-len", 5))
+		if wt-1 > top {
+			wt = top + 1
+		}
+		var lgot []*H
+		var lerr error
+		lb := 20 * (timeout + 500*time.Millisecond)
+		_, lfin := s.Do("later-range", lb+5*time.Second, func() {
+			ctx, cancel := context.WithTimeout(context.Background(), lb)
+			defer cancel()
+			lgot, lerr = w.Ex.GetRangeByHeight(ctx, w.Ch.At(wf), wt)
+		})
+		desc = append(desc, fmt.Sprintf("later request (%d:%d)", wf, wt))
+		if !lfin || lerr != nil || uint64(len(lgot)) != wt-wf-1 {
+			s.Violate("honest-range-failed", map[string]string{"phase": "later"}, "later GetRangeByHeight(%d,%d) on the same Exchange: finished=%v err=%v len=%d although peer%d holds everything, is honest and connected [%v chunk=%d]", wf, wt, lfin, lerr, len(lgot), capable, desc, chunk)
+			return info
+		}
+		s.Probe("later-request-on-same-exchange")
+	}
+	if !capableTrusted {
+		// Head/Get/GetByHeight go to the trusted peers only, and none of them is known to hold the target
+		s.Probe("full-range-returned")
+		return info
 	}
 	// Head / Get / GetByHeight through the wire encoding
 	var hd, g1, g2 *H
